@@ -50,18 +50,9 @@ def run(tier, scratch, drv, only_cases=None):
         res["model"] = {}
     if not cases:
         raise vlib.Inconclusive("no cases generated")
-    cpath = os.path.join(scratch, "hs_cases.ndjson")
-    with open(cpath, "w") as f:
-        for c in cases:
-            f.write(json.dumps(c) + "\n")
-    trace = os.path.join(scratch, "hs_trace.ndjson")
-    rpath = os.path.join(scratch, "hs_results.json")
-    out, wall = vlib.run_driver(drv, ["hs-server", "-cases", cpath, "-trace", trace, "-results", rpath,
-                                      "-workers", "48"])
-    with open(rpath) as f:
-        summary = json.load(f)
-    res["replay"] = {"cases": summary["cases"], "matched": summary["matched"], "wall_s": wall,
-                     "notes": summary["notes"]}
+    trace, summary = vlib.run_hs_batch(drv, cases, scratch, "hs%d" % len(cases), workers=32)
+    res["replay"] = {"cases": summary["cases"], "matched": summary["matched"], "wall_s": summary["wall_s"],
+                     "notes": summary["notes"], "crashed": summary["crashed"]}
     bad, events, mwall = vlib.run_monitor("HsObs", MONITOR_CFG, trace, scratch, shards=8)
     res["monitor"] = {"events": events, "wall_s": mwall, "bad": len(bad)}
     by_n = {c["n"]: c for c in cases}
